@@ -246,6 +246,9 @@ func genC16(e *emitter, r *rng, tier string) {
 		default:
 			ns = numSpec{desc: "Z", length: 0, allV: true}
 		}
+		if i%25 == 7 { // empty but non-nil digit lists
+			ns = numSpec{desc: fmt.Sprintf("TE:%s:-:%d", digitsCSV(randDigitsNZ(r, 1+r.intn(4))), r.rangeInt(-2, 3)), length: 3}
+		}
 		b := newScriptBuilder(r, ns)
 		x := func() int { return ext[r.intn(len(ext))] }
 		for j := 0; j < 10; j++ {
@@ -278,7 +281,8 @@ func genC16(e *emitter, r *rng, tier string) {
 			case 11:
 				b.add("m:%d:%s:%d", h, r.pickS([]string{"e", "nil", "1"}), x())
 			case 12:
-				b.add("itat:%d:%d:%d", h, r.pick([]int{0, 1, 100, maxInt - 1, maxInt}), 3)
+				// negative positions must panic (v1 IteratorAt), also on zero Numbers and views of them
+				b.add("itat:%d:%d:%d", h, r.pick([]int{minInt, -1, -1, 0, 1, 100, maxInt - 1, maxInt}), 3)
 			default:
 				b.add("bm:%d:%s:%d", h, r.pickS([]string{"e", "nil", "1"}), x())
 			}
